@@ -7,31 +7,26 @@ class B(db.Entity):
 db.bind('sqlite', ':memory:')
 db.generate_mapping(create_tables=True)
 with db_session:
-    a = A(); b1 = B(); b2 = B()
-    sd = a._vals_[A.bs]
-    print('init', sd.count, len(sd))
-    a.bs.add([b1, b2])
-    print('after add', sd.count, len(sd), sd.added, sd.removed)
-    a.bs.remove(b1)
-    print('after remove', sd.count, len(sd), sd.added, sd.removed)
-    print('len', len(a.bs), 'count', a.bs.count(), 'is_empty', a.bs.is_empty())
-    flush()
-    print('after flush len', len(a.bs), 'count', a.bs.count())
+    a = A(); b0 = B(a=a)
 with db_session:
-    a = A(); b1 = B(); b2 = B()
-    flush()
-    a.bs.add([b1, b2])
+    a = A[1]; b = B()
+    a.bs.add(b)
     sd = a._vals_[A.bs]
-    print('flushed: after add', sd.count, len(sd), sd.added, sd.removed)
-    a.bs.remove(b1)
-    print('after remove', sd.count, len(sd), sd.added, sd.removed)
-    print('len', len(a.bs), 'count', a.bs.count())
+    print('after add', sd.count, set(sd), sd.added, sd.removed, sd.is_fully_loaded)
+    a.bs.remove(b)
+    print('after remove', sd.count, set(sd), sd.added, sd.removed)
+    print('count', a.bs.count(), 'len', len(a.bs))
 with db_session:
-    a = A(); b1 = B(); b2 = B()
-    b1.a = a
+    a = A[1]; b = B(a=a)
     sd = a._vals_[A.bs]
-    print('via ref: ', sd.count, len(sd), sd.added, sd.removed)
-    a.bs.add(b2)
-    print('add b2: ', sd.count, len(sd), sd.added, sd.removed)
-    a.bs = [b1]
-    print('set [b1]: ', sd.count, len(sd), sd.added, sd.removed)
+    print('after B(a=a)', sd.count, set(sd), sd.added, sd.removed, sd.is_fully_loaded)
+    a.bs.remove(b)
+    print('after remove', sd.count, set(sd), sd.added, sd.removed)
+    print('count', a.bs.count(), 'len', len(a.bs))
+with db_session:
+    a = A[1]; b0 = B[1]
+    print('count0', a.bs.count())
+    a.bs.remove(b0)
+    sd = a._vals_[A.bs]
+    print('after remove', sd.count, set(sd), sd.added, sd.removed)
+    print('count', a.bs.count(), 'len', len(a.bs))
